@@ -394,6 +394,42 @@ Section Outputs.
     - cbn [exec_stmt fst snd decl_name]. repeat split; auto. intros x Hx; discriminate.
   Qed.
 
+  (* the repaired statement (F33 fixed): every successful declaration records its name ... *)
+  Lemma exec_stmt_fixed33_records : forall s e x,
+    is_rok (snd (exec_stmt_fixed33 eval s (SOut e))) = true -> decl_name_fixed33 e = Some x ->
+    exists v, fst (eval (s_cfg s) e) = Ok v /\
+      s_outputs (fst (exec_stmt_fixed33 eval s (SOut e))) = rec_insert (s_outputs s) x v /\
+      map fst (s_outputs (fst (exec_stmt_fixed33 eval s (SOut e)))) = add_key (map fst (s_outputs s)) x.
+  Proof.
+    intros s e x Hok Hn. cbn [exec_stmt_fixed33] in *.
+    destruct (eval (s_cfg s) e) as [o [st1 fr1]]. rewrite Hn in *.
+    destruct o as [w| | | |]; cbn [fst snd is_rok] in *; try discriminate.
+    destruct (validate_portable st1 fr1 w); cbn [fst snd is_rok s_outputs] in *; [|discriminate].
+    exists w. unfold out_insert. repeat split. apply keys_insert.
+  Qed.
+
+  (* ... and nothing else changes: on declarations of bindings it is Program.exec_stmt *)
+  Lemma exec_stmt_fixed33_agrees : forall s t,
+    binding_decl t = true -> is_rok (snd (exec_stmt eval s t)) = true ->
+    exec_stmt_fixed33 eval s t = exec_stmt eval s t.
+  Proof.
+    intros s t Hb Hok. destruct t as [e|e|]; try reflexivity.
+    destruct (eval (s_cfg s) e) as [o [st1 fr1]] eqn:E.
+    destruct o as [w| | | |].
+    2-5: rewrite (exec_stmt_SOut_fail _ _ _ _ E eq_refl) in Hok; discriminate.
+    destruct (exec_stmt_SOut_ok _ _ _ _ _ E Hb) as (x & v & Hn & Hl & Hx).
+    rewrite Hx. cbn [exec_stmt_fixed33]. rewrite E.
+    assert (decl_name_fixed33 e = Some x /\ lookup fr1 x = Some w) as [Hn' Hw].
+    { destruct e; cbn [binding_decl] in Hb; try discriminate; cbn [decl_name decl_name_fixed33] in *.
+      - apply negb_true_iff in Hb. split; [exact Hn|]. inversion Hn; subst. exact (eval_id _ _ _ _ E Hb).
+      - split; [exact Hn|]. inversion Hn; subst. exact (eval_assign _ _ _ _ _ E).
+      - rewrite eval_output in E.
+        destruct e; cbn [binding_decl] in Hb; try discriminate; cbn [decl_name decl_name_fixed33] in *.
+        + apply negb_true_iff in Hb. split; [exact Hn|]. inversion Hn; subst. exact (eval_id _ _ _ _ E Hb).
+        + split; [exact Hn|]. inversion Hn; subst. exact (eval_assign _ _ _ _ _ E). }
+    rewrite Hn'. assert (v = w) by congruence. subst v. reflexivity.
+  Qed.
+
   Lemma run_cons_ok : forall s t rest,
     is_rok (snd (exec_stmt eval s t)) = true ->
     fst (run eval s (t :: rest)) = fst (run eval (fst (exec_stmt eval s t)) rest).
@@ -1038,3 +1074,30 @@ Proof.
   - pose proof (to_value_not_loadable sv st L) as Hn.
     destruct (to_value st sv) as [o st1]. cbn [fst] in Hn. subst o. cbn. repeat split. discriminate.
 Qed.
+
+(* ---- statements instantiated for the evaluator model (used verbatim by Properties/C19.v) ---- *)
+Lemma evalD_hash_is_inputs_field : forall release bi bu d c n,
+  evalD release bi bu d c (EInRef n) = evalD release bi bu d c (EDot (EId "inputs") n).
+Proof. intros. apply hash_is_inputs_field. Qed.
+
+Lemma evalD_hash_null_when_absent : forall release bi bu d c n r,
+  lookup (snd c) "inputs" = Some (VRec r) -> rec_get r n = None ->
+  evalD release bi bu d c (EInRef n) = (Ok VNull, c) /\
+  evalD release bi bu d c (EDot (EId "inputs") n) = (Ok VNull, c).
+Proof. intros. eapply hash_null_when_absent; eauto. Qed.
+
+Lemma evalD_fixed33_agrees : forall release bi bu d s t,
+  binding_decl t = true -> is_rok (snd (exec_stmt (evalD release bi bu d) s t)) = true ->
+  exec_stmt_fixed33 (evalD release bi bu d) s t = exec_stmt (evalD release bi bu d) s t.
+Proof.
+  intros release bi bu d. apply exec_stmt_fixed33_agrees.
+  - apply evalD_output.
+  - apply evalD_assign.
+  - apply evalD_id.
+Qed.
+
+Lemma value_k_numbering_top : forall stdin flags maps,
+  contributions [] 0 (sources stdin flags) = Some maps ->
+  unnamed_names (sources stdin flags) maps =
+  map value_key (seq 1 (length (unnamed_names (sources stdin flags) maps))).
+Proof. intros stdin flags maps. exact (value_k_numbering _ [] 0 maps). Qed.
